@@ -112,3 +112,13 @@ NOT_APPLICABLE = {}
 
 # Commits in /repo that add the cfg/feature-guarded hooks.
 HOOK_COMMITS = []
+
+# Further groups live in their own modules (props_*.py), each exposing `register(PROPS, helpers)`.
+import glob as _glob
+import importlib as _importlib
+import os as _os
+
+for _f in sorted(_glob.glob(_os.path.join(_os.path.dirname(_os.path.abspath(__file__)), "props_*.py"))):
+    _m = _importlib.import_module(_os.path.basename(_f)[:-3])
+    _m.register(PROPS, dict(native=native, miri=miri, valgrind=valgrind, TRUST_BASE=TRUST_BASE,
+                            NOT_APPLICABLE=NOT_APPLICABLE, HOOK_COMMITS=HOOK_COMMITS))
